@@ -149,6 +149,42 @@ def fam(name, seqs, *extra):
     return (name, seqs, list(extra))
 
 
+# Builds of the harness that instantiate the cache with a value (key) type *without drop glue*
+# (`mem::needs_drop::<V>() == false`): code that specialises on the type parameters is only reached
+# this way. The model's prediction is projected: drop events of the plain side do not exist.
+VARIANTS = {"plain-v": re.compile(r"dV:\d+ ?"), "plain-k": re.compile(r"dK:\d+ ?")}
+
+VARIANT_PLAN = {
+    "C06": [fam("iterx", 0, "--entries", "3", "--calls", "4"), fam("iter", 150), fam("retain", 100), fam("insert", 150)],
+    "C12": [fam("iterx", 0, "--entries", "3", "--calls", "5"), fam("iter", 200)],
+    "C15": [fam("retainx", 0, "--entries", "5"), fam("retain", 200)],
+    "C17": [fam("forgetx", 0, "--entries", "3", "--calls", "5"), fam("forget", 200)],
+    "C03": [fam("insert", 200)],
+    "C11": [fam("mutate", 200)],
+}
+
+
+def project_pred(path, variant):
+    rx = VARIANTS[variant]
+    out = []
+    for l in open(path):
+        m = re.search(r"ev=\[([^\]]*)\]", l)
+        if m:
+            ev = rx.sub("", m.group(1)).strip()
+            l = l[:m.start(1)] + ev + l[m.end(1):]
+        out.append(l)
+    with open(path, "w") as f:
+        f.writelines(out)
+
+
+def variant_of(lines):
+    for l in lines[:3]:
+        m = re.search(r"types=(\S+)", l)
+        if l.startswith("# seq") and m:
+            return m.group(1)
+    return None
+
+
 EMPHASIS = {
     "C01": [fam("insert", 800), fam("mutate", 800)],
     "C02": [fam("mutate", 1000), fam("insert", 400)],
@@ -156,17 +192,17 @@ EMPHASIS = {
     "C04": [fam("wide", 120), fam("churn", 6)],
     "C05": [fam("order", 600)],
     "C06": [fam("iter", 600), fam("clone", 300), fam("iterx", 0, "--entries", "3", "--calls", "5")],
-    "C07": [fam("churn", 10), fam("capacity", 150), fam("wide", 100)],
+    "C07": [fam("churn", 10), fam("capacity", 150), fam("wide", 100), fam("tomb", 0)],
     "C10": [fam("insert", 1500)],
     "C11": [fam("mutate", 1500)],
     "C12": [fam("iterx", 0, "--entries", "4", "--calls", "6"), fam("iter", 600)],
-    "C13": [fam("capacity", 300), fam("churn", 10), fam("capx", 0), fam("slide", 0)],
+    "C13": [fam("capacity", 300), fam("churn", 10), fam("capx", 0), fam("slide", 0), fam("tomb", 0)],
     "C14": [fam("clone", 1000)],
     "C15": [fam("retainx", 0, "--entries", "6"), fam("retain", 600)],
     "C16": [fam("panicx", 0, "--rounds", "1"), fam("panic", 300)],
     "C17": [fam("forgetx", 0, "--entries", "4", "--calls", "6"), fam("forget", 600)],
-    "C19": [fam("order", 400), fam("iter", 300), fam("clone", 200)],
-    "C20": [fam("churn", 8), fam("wide", 100), fam("capacity", 100)],
+    "C19": [fam("order", 400), fam("iter", 300), fam("clone", 200), fam("panic", 100), fam("panicx", 0, "--rounds", "1")],
+    "C20": [fam("churn", 8), fam("wide", 100), fam("capacity", 100), fam("tomb", 0), fam("slide", 0)],
 }
 
 THOROUGH_EXTRA = {
@@ -175,8 +211,8 @@ THOROUGH_EXTRA = {
     "C15": [fam("retainx", 0, "--entries", "10")],
     "C16": [fam("panicx", 0, "--rounds", "6")],
 }
-EXHAUSTIVE_FAMILIES = {"iterx", "forgetx", "retainx", "capx", "panicx", "exh", "slide"}
-SHARDED = {"iterx", "forgetx", "retainx", "panicx", "exh", "slide"}
+EXHAUSTIVE_FAMILIES = {"iterx", "forgetx", "retainx", "capx", "panicx", "exh", "slide", "tomb"}
+SHARDED = {"iterx", "forgetx", "retainx", "panicx", "exh", "slide", "tomb"}
 
 
 def plan(prop, tier):
@@ -309,6 +345,13 @@ def build_harness(ctx):
         shutil.copy("/repo/Cargo.lock", lock)
     rc, out = run(["cargo", "build", "--release", "--offline"], cwd=h, timeout=1800)
     if rc == 0:
+        ctx.harness_variant = {}
+        if ctx.prop in VARIANT_PLAN:
+            for v in VARIANTS:
+                rcv, outv = run(["cargo", "build", "--release", "--offline", "--features", v, "--target-dir", f"target-{v}"], cwd=h, timeout=1800)
+                if rcv != 0:
+                    return False, out + f"\n---- variant {v} ----\n" + outv
+                ctx.harness_variant[v] = os.path.join(h, f"target-{v}", "release", "lru-verif-harness")
         return True, out
     rc2, out2 = run(["cargo", "build", "--release", "--offline", "--no-default-features"], cwd=h, timeout=1800)
     if rc2 == 0:
@@ -318,17 +361,18 @@ def build_harness(ctx):
     return False, out + "\n---- without hooks ----\n" + out2
 
 
-def run_shard(ctx, idx, family, seqs, extra, shard, nshards, careful=False, tag=""):
-    prefix = os.path.join(ctx.work, f"{family}{tag}_{idx}")
+def run_shard(ctx, idx, family, seqs, extra, shard, nshards, careful=False, tag="", variant=None):
+    prefix = os.path.join(ctx.work, f"{family}{tag}{('-' + variant) if variant else ''}_{idx}")
     if getattr(ctx, "abort", False):
         return {"prefix": prefix, "family": family, "rc": 0, "skipped": True, "same": True, "out": "", "cmd": ""}
-    cmd = [ctx.harness, "--family", family, "--seed", str(ctx.seed * 7919 + idx), "--seqs", str(seqs), "--out", prefix] + extra
+    binary = ctx.harness_variant[variant] if variant else ctx.harness
+    cmd = [binary, "--family", family, "--seed", str(ctx.seed * 7919 + idx), "--seqs", str(seqs), "--out", prefix] + extra
     if family in SHARDED:
         cmd += ["--shard", f"{shard}/{nshards}"]
     if careful:
         cmd += ["--careful"]
     rc, out = run(cmd, timeout=30 if careful else SHARD_TIMEOUT.get(ctx.tier, 90))
-    res = {"prefix": prefix, "family": family, "rc": rc, "out": out[-2000:], "cmd": " ".join(cmd)}
+    res = {"prefix": prefix, "family": family, "rc": rc, "out": out[-2000:], "cmd": " ".join(cmd), "variant": variant}
     if rc != 0:
         # a crash or a hang of the real code: no point in running the remaining shards
         ctx.abort = True
@@ -337,6 +381,8 @@ def run_shard(ctx, idx, family, seqs, extra, shard, nshards, careful=False, tag=
         p = subprocess.run([ctx.driver], stdin=fi, stdout=fo, stderr=subprocess.PIPE, text=True)
     res["driver_rc"] = p.returncode
     res["driver_err"] = p.stderr[-1000:]
+    if variant:
+        project_pred(prefix + ".pred", variant)
     same = subprocess.run(["cmp", "-s", prefix + ".obs", prefix + ".pred"]).returncode == 0
     res["same"] = same
     return res
@@ -426,12 +472,16 @@ def replay_lines(ctx, lines, tag):
     with open(path, "w") as f:
         f.write("\n".join(lines) + "\n")
     prefix = os.path.join(ctx.work, f"replay_{tag}")
-    rc, out = run([ctx.harness, "--family", "replay", "--ops", path, "--out", prefix, "--careful"], timeout=20)
+    variant = variant_of(lines)
+    binary = getattr(ctx, "harness_variant", {}).get(variant, ctx.harness) if variant else ctx.harness
+    rc, out = run([binary, "--family", "replay", "--ops", path, "--out", prefix, "--careful"], timeout=20)
     res = {"prefix": prefix, "rc": rc}
     if rc != 0:
         return True, [], [], out
     with open(prefix + ".ops") as fi, open(prefix + ".pred", "w") as fo:
         subprocess.run([ctx.driver], stdin=fi, stdout=fo, stderr=subprocess.PIPE)
+    if variant in VARIANTS:
+        project_pred(prefix + ".pred", variant)
     return False, monitor_failures(res), compare(ctx, res), out
 
 
@@ -655,6 +705,15 @@ def main(root, argv):
         futs = [ex.submit(run_shard, ctx, *j) for j in jobs]
         for c in corpus:
             futs.append(ex.submit(run_shard, ctx, 9000 + len(futs), "replay", 0, ["--ops", os.path.join(corpus_dir, c)], 0, 1))
+        vidx = 7000
+        mult = 12 if tier == "thorough" else 1
+        for v in sorted(getattr(ctx, "harness_variant", {})):
+            for (family, seqs, extra) in VARIANT_PLAN.get(prop, []):
+                nsh = 4 if family in SHARDED else (1 if family in EXHAUSTIVE_FAMILIES else min(4, max(1, seqs // 20)))
+                per = max(1, seqs * mult // nsh) if seqs else 0
+                for sh in range(nsh):
+                    futs.append(ex.submit(run_shard, ctx, vidx, family, per, extra, sh, nsh, False, "", v))
+                    vidx += 1
         for f in futs:
             results.append(f.result())
 
